@@ -25,7 +25,7 @@ CBMC_FLAGS = ['--unwinding-assertions', '--no-malloc-may-fail', '--slice-formula
 def log(msg):
     sys.stderr.write(msg + '\n'); sys.stderr.flush()
 
-import threading
+import threading, ctypes
 TU_GUARD = threading.Lock(); TU_LOCKS = {}
 
 class ToolError(Exception):
@@ -34,6 +34,9 @@ class ToolError(Exception):
 def run(cmd, cwd=None, timeout=None, mem_gb=None, env=None, stdout=None):
     def pre():
         os.setsid()
+        # a killed driver must not leave solver processes behind (PR_SET_PDEATHSIG = 1)
+        try: ctypes.CDLL(None).prctl(1, signal.SIGKILL)
+        except Exception: pass
         if mem_gb:
             lim = int(mem_gb * (1 << 30))
             resource.setrlimit(resource.RLIMIT_AS, (lim, lim))
